@@ -72,7 +72,7 @@ CHECKS = {
              "reorganisation of depth >=2 (TestC04Reorg)",
         assumptions=HIST_ASSUME,
         jobs=[dict(test="TestC04", quick=T(6, 35, 45), thorough=T(12, 200, 80, 3000)),
-              dict(test="TestC04Reorg", quick=T(2, 30), thorough=T(4, 150, 0, 3000))],
+              dict(test="TestC04Reorg", quick=T(4, 60), thorough=T(6, 300, 0, 3000))],
     ),
     "C06": dict(
         level="exploration",
